@@ -320,3 +320,10 @@ class ParsedSubsetState(SubsetState):
 
     def copy(self):
         return ParsedSubsetState(self._parsed)
+
+    def __gluestate__(self, context):
+        return dict(parsed=context.do(self._parsed))
+
+    @classmethod
+    def __setgluestate__(cls, rec, context):
+        return cls(context.object(rec['parsed']))
